@@ -838,8 +838,9 @@ def victim_sets(V, info):
     return sets
 
 
-def directed_items(repo, name, spec, tmpdir, stride=1, offset=0, kinds=("between", "at-send", "repeat")):
-    """yields (label, events) — every variant of the recorded base schedule `name`"""
+def directed_items(repo, name, spec, tmpdir, stride=1, offset=0, kinds=("between", "at-send", "repeat"), shard=(0, 1)):
+    """returns [(label, events)] — every variant of the recorded base schedule `name` (every `stride`-th one,
+    of those the shard j of K), and the recorded base run"""
     base, info = record_base(repo, name, spec, tmpdir)
     S = base.events
     V = base.V
@@ -852,11 +853,18 @@ def directed_items(repo, name, spec, tmpdir, stride=1, offset=0, kinds=("between
         return out, base
     tail = competitor_events(V, info) if name == "vote" else []
     n = 0
+    picked = [0]
+
+    def skip(n):
+        if (n + offset) % stride:
+            return True
+        picked[0] += 1
+        return picked[0] % shard[1] != shard[0]
     if "between" in kinds:
         for p in range(len(S) + 1):
             for label, vs in victim_sets(V, info):
                 n += 1
-                if (n + offset) % stride:
+                if skip(n):
                     continue
                 ins = [["kill", v] for v in vs] + back_up(V, vs)
                 if name == "vote":
@@ -872,7 +880,7 @@ def directed_items(repo, name, spec, tmpdir, stride=1, offset=0, kinds=("between
             node = e[1] if e[0] == "tick" else e[2]
             for nth in range(1, sends[p] + 1):
                 n += 1
-                if (n + offset) % stride:
+                if skip(n):
                     continue
                 ke = ["tick_k", e[1], e[2], nth] if e[0] == "tick" else ["deliver_k", e[1], e[2], nth]
                 out.append(("%s@%d/at-send%d/%s" % (name, p, nth, node), S[:p] + [ke] + back_up(V, [node]) + tail + S[p + 1:]))
@@ -880,7 +888,7 @@ def directed_items(repo, name, spec, tmpdir, stride=1, offset=0, kinds=("between
         # everybody (then a majority, then everybody again) dies at several positions of ONE run
         for step in (5, 9, 14):
             n += 1
-            if (n + offset) % stride:
+            if skip(n):
                 continue
             ev = []
             for p, e in enumerate(S):
@@ -931,10 +939,12 @@ def _work(args):
                 r.close()
             res.append(summarize(r, "random/%d" % k, spec))
         elif item[0] == "directed":
-            _, name, n, dump, stride, offset, kinds = item
+            _, name, n, dump, stride, offset, kinds = item[:7]
+            shard = item[7] if len(item) > 7 else (0, 1)
             spec = spec_for(name, n, dump, base_seed * 31 + n)
-            variants, base = directed_items(repo, name, spec, tmp, stride, offset, kinds)
-            res.append(summarize(base, "%s/base" % name, spec))
+            variants, base = directed_items(repo, name, spec, tmp, stride, offset, kinds, shard)
+            if shard[0] == 0:
+                res.append(summarize(base, "%s/base" % name, spec))
             for label, events in variants:
                 if time.time() > deadline:
                     res.append({"label": "deadline", "cov": {"deadline-cut": 1}, "violations": [], "n_events": 0, "hash": None})
@@ -958,30 +968,40 @@ def plan(ctx):
                 items.append(("corpus", os.path.join(CORPUS, fn)))
     quick = ctx.tier == "quick"
     off = ctx.seed
+    ALL = ("between", "at-send", "repeat")
+    VOTE = ("between", "at-send")
+
+    def fam(name, n, dump, q_stride, t_stride, kinds, t_shards=1):
+        if quick:
+            if q_stride:
+                items.append(("directed", name, n, dump, q_stride, off, kinds, (0, 1)))
+        else:
+            for j in range(t_shards):
+                items.append(("directed", name, n, dump, t_stride, off, kinds, (j, t_shards)))
     if ctx.pid == "C07":
-        # elections are what C07 is about: all vote variants; replication variants thinned
-        items.append(("directed", "vote", 3, False, 1, off, ("between", "at-send")))
-        items.append(("directed", "vote", 3, True, 2 if quick else 1, off, ("between", "at-send")))
-        items.append(("directed", "vote", 5, True, 12 if quick else 1, off, ("between", "at-send")))
-        items.append(("directed", "replication", 3, True, 16 if quick else 2, off, ("between", "at-send", "repeat")))
-        if not quick:
-            items.append(("directed", "vote", 4, False, 1, off, ("between", "at-send")))
-            items.append(("directed", "vote", 5, False, 1, off, ("between", "at-send")))
-            items.append(("directed", "conflict", 3, True, 2, off, ("between", "at-send", "repeat")))
-            items.append(("directed", "replication", 5, False, 4, off, ("between", "at-send", "repeat")))
+        # elections are what C07 is about: every vote variant; the other families thinned
+        fam("vote", 3, False, 1, 1, VOTE)
+        fam("vote", 3, True, 1, 1, VOTE)
+        fam("vote", 5, True, 5, 1, VOTE, 6)
+        fam("vote", 4, False, 5, 1, VOTE, 3)
+        fam("replication", 3, True, 8, 1, ALL, 6)
+        fam("conflict", 3, True, 8, 1, ALL, 6)
+        fam("vote", 5, False, 0, 1, VOTE, 6)
+        fam("replication", 5, False, 0, 3, ALL, 6)
+        fam("snapshot", 3, False, 0, 2, ALL, 4)
     else:
-        items.append(("directed", "replication", 3, True, 6 if quick else 1, off, ("between", "at-send", "repeat")))
-        items.append(("directed", "replication", 2, False, 6 if quick else 1, off, ("between", "at-send", "repeat")))
-        items.append(("directed", "snapshot", 3, True, 8 if quick else 1, off, ("between", "at-send", "repeat")))
-        items.append(("directed", "conflict", 3, False, 8 if quick else 1, off, ("between", "at-send", "repeat")))
-        items.append(("directed", "vote", 3, True, 6 if quick else 1, off, ("between", "at-send")))
-        if not quick:
-            items.append(("directed", "replication", 5, True, 2, off, ("between", "at-send", "repeat")))
-            items.append(("directed", "replication", 4, False, 2, off, ("between", "at-send", "repeat")))
-            items.append(("directed", "snapshot", 3, False, 1, off, ("between", "at-send", "repeat")))
-            items.append(("directed", "snapshot", 5, True, 3, off, ("between", "at-send", "repeat")))
-            items.append(("directed", "conflict", 5, True, 2, off, ("between", "at-send", "repeat")))
-    n_random = ctx.scale(28, 1400)
+        fam("replication", 3, True, 4, 1, ALL, 8)
+        fam("replication", 2, False, 3, 1, ALL, 2)
+        fam("snapshot", 3, True, 4, 1, ALL, 6)
+        fam("conflict", 3, False, 4, 1, ALL, 6)
+        fam("vote", 3, True, 3, 1, VOTE)
+        fam("replication", 5, True, 0, 2, ALL, 8)
+        fam("replication", 4, False, 0, 2, ALL, 6)
+        fam("snapshot", 3, False, 0, 1, ALL, 6)
+        fam("snapshot", 5, True, 0, 3, ALL, 6)
+        fam("conflict", 5, True, 0, 2, ALL, 8)
+        fam("vote", 5, False, 0, 4, VOTE, 2)
+    n_random = ctx.scale(48, 1600)
     n_events = ctx.scale(260, 420)
     for k in range(n_random):
         items.append(("random", k, n_events))
